@@ -11,6 +11,7 @@ package main
 //        <i>        RestoreChunk(i) with the real chunk bytes
 //        <i>f       RestoreChunk(i) with one byte of the file flipped (digest mismatch expected)
 //        <i>t       RestoreChunk(i) with the file truncated
+//        <i>s       RestoreChunk(i) with the bytes of chunk i+1 (well-formed, wrong digest for this index)
 //        A          abort and restart the whole restore (AbortRestore + AbortMultipartInsert)
 //   restorec BACKEND N SEED         N goroutines restore all chunks concurrently, each in its own order
 //   raceabort I J                   RestoreChunk(I) is in flight while RestoreChunk(J) (bad proof) aborts the restore
@@ -81,12 +82,26 @@ type checkpointData struct {
 	dec    [][][]byte // decoded entry lists
 }
 
+// staleParams, when set, makes createCheckpoint first create a checkpoint of the same root with other
+// parameters in the same directory and remove its metadata file (a creation that was interrupted before
+// the metadata was written), so that the real creation runs over leftover chunk files.
+var staleParams *[2]uint64
+
 func createCheckpoint(s *server, size uint64, threads uint16) (*checkpointData, error) {
 	dir := scratchDir("cp")
 	defer os.RemoveAll(dir)
 	fc, err := checkpoint.NewFileCreator(dir, s.ndb)
 	if err != nil {
 		return nil, err
+	}
+	if staleParams != nil {
+		if _, err = fc.CreateCheckpoint(ctx, s.root, staleParams[0], uint16(staleParams[1])); err != nil {
+			return nil, err
+		}
+		metas, _ := filepath.Glob(filepath.Join(dir, "*", "*", "meta"))
+		for _, m := range metas {
+			os.Remove(m)
+		}
 	}
 	meta, err := fc.CreateCheckpoint(ctx, s.root, size, threads)
 	if err != nil {
@@ -434,6 +449,76 @@ func (c *c12Runner) runRaceAbort(i, j int) {
 	}
 }
 
+// runRaceClaim: caller A is between the two phases of RestoreChunk(i) while caller B restores every
+// other chunk. Completion must not be reported before A's chunk is imported; it is reported by A.
+func (c *c12Runner) runRaceClaim(i int) {
+	if c.cp == nil || c.deep || len(c.cp.chunks) < 2 {
+		return
+	}
+	s := c.srv
+	cd := c.cp
+	i = i % len(cd.chunks)
+	ndb := openDB("badgermem", "")
+	defer ndb.Close()
+	rs, _ := checkpoint.NewRestorer(ndb)
+	if err := ndb.StartMultipartInsert(s.root.Version); err != nil {
+		panic(err)
+	}
+	if err := rs.StartRestore(ctx, cd.meta); err != nil {
+		panic(err)
+	}
+	c.res.Count("raceclaim")
+	g := &gateReader{r: bytes.NewReader(cd.chunks[i]), gate: make(chan struct{}), entered: make(chan struct{})}
+	type result struct {
+		done bool
+		err  error
+	}
+	ch := make(chan result, 1)
+	go func() {
+		defer func() {
+			if rec := recover(); rec != nil {
+				ch <- result{false, fmt.Errorf("PANIC: %v", rec)}
+			}
+		}()
+		d, e := rs.RestoreChunk(ctx, uint64(i), g)
+		ch <- result{d, e}
+	}()
+	<-g.entered
+	early := ""
+	for j := range cd.chunks {
+		if j == i {
+			continue
+		}
+		d, err := rs.RestoreChunk(ctx, uint64(j), bytes.NewReader(cd.chunks[j]))
+		if err != nil {
+			early = fmt.Sprintf("RestoreChunk(%d) failed while RestoreChunk(%d) was in flight: %v", j, i, err)
+			break
+		}
+		if d {
+			early = fmt.Sprintf("RestoreChunk(%d) reported completion while RestoreChunk(%d) was still importing its chunk", j, i)
+			break
+		}
+	}
+	close(g.gate)
+	a := <-ch
+	if early != "" {
+		c.fail("spec", "spec-restore-done-before-all-imported", early)
+		return
+	}
+	if a.err != nil || !a.done {
+		c.fail("spec", "spec-restore-done-flag", fmt.Sprintf("last RestoreChunk(%d) (all others restored meanwhile) returned done=%v err=%v", i, a.done, a.err))
+		return
+	}
+	if err := ndb.Finalize([]node.Root{s.root}); err != nil {
+		c.fail("spec", "spec-restored-root-not-finalizable", fmt.Sprintf("Finalize after interleaved restore: %v", err))
+		return
+	}
+	got, err := readAll(ndb, s.root)
+	if err != nil || len(got) != len(s.keys) {
+		c.fail("spec", "spec-restored-contents-differ", fmt.Sprintf("interleaved restore: %d keys readable (err=%v), original %d", len(got), err, len(s.keys)))
+	}
+}
+
 func (c *c12Runner) runRestore(backend string, steps []string) {
 	if c.cp == nil {
 		return
@@ -493,7 +578,7 @@ func (c *c12Runner) runRestore(backend string, steps []string) {
 			continue
 		}
 		kind := byte(0)
-		if strings.HasSuffix(st, "f") || strings.HasSuffix(st, "t") {
+		if strings.HasSuffix(st, "f") || strings.HasSuffix(st, "t") || strings.HasSuffix(st, "s") {
 			kind = st[len(st)-1]
 			st = st[:len(st)-1]
 		}
@@ -507,6 +592,14 @@ func (c *c12Runner) runRestore(backend string, steps []string) {
 			raw[(i*7+3)%len(raw)] ^= 0x10
 		case 't':
 			raw = raw[:len(raw)/2]
+		case 's':
+			// the (well-formed) bytes of another chunk of the same checkpoint, delivered for index i
+			j := (i + 1) % len(cd.chunks)
+			if bytes.Equal(cd.chunks[j], cd.chunks[i]) {
+				kind = 0
+			} else {
+				raw = append([]byte{}, cd.chunks[j]...)
+			}
 		}
 		if done {
 			// a completed restore accepts nothing more
@@ -746,7 +839,15 @@ func runCaseC12(lines []string, res *hlib.Result) (fails []hlib.Failure, nlines 
 			w := strings.Fields(l)
 			switch w[0] {
 			case "cp":
+				staleParams = nil
 				c.runCp(uint64(atoi(w[1])), uint16(atoi(w[2])))
+			case "cpover":
+				// cpover SIZE THREADS STALESIZE STALETHREADS: create over the leftovers of an interrupted creation
+				staleParams = &[2]uint64{uint64(atoi(w[3])), uint64(atoi(w[4]))}
+				c.runCp(uint64(atoi(w[1])), uint16(atoi(w[2])))
+				staleParams = nil
+			case "raceclaim":
+				c.runRaceClaim(atoi(w[1]))
 			case "restore":
 				c.runRestore(w[1], strings.Split(w[2], ","))
 			case "badproof":
@@ -822,7 +923,12 @@ func genCaseC12(r *hlib.Rng, res *hlib.Result, i int, big int) []string {
 			size = total/(4+r.Intn(12)) + 1
 		}
 		thr := threads[r.Intn(len(threads))]
-		lines = append(lines, fmt.Sprintf("cp %d %d", size, thr))
+		if i != 0 && !isBig && r.Chance(1, 5) {
+			// leftovers of an interrupted creation with smaller chunks (longer files for low indices are likely)
+			lines = append(lines, fmt.Sprintf("cpover %d %d %d %d", size, thr, sizes[r.Intn(len(sizes))]*4+64, threads[r.Intn(len(threads))]))
+		} else {
+			lines = append(lines, fmt.Sprintf("cp %d %d", size, thr))
+		}
 		if i == 0 {
 			lines = append(lines, "restore badgermem 0")
 			continue
@@ -842,6 +948,8 @@ func genCaseC12(r *hlib.Rng, res *hlib.Result, i int, big int) []string {
 					steps = append(steps, fmt.Sprintf("%df", x))
 				case y == 2:
 					steps = append(steps, fmt.Sprintf("%dt", x))
+				case y == 3:
+					steps = append(steps, fmt.Sprintf("%ds", x))
 				default:
 					steps = append(steps, fmt.Sprint(x))
 				}
@@ -857,6 +965,9 @@ func genCaseC12(r *hlib.Rng, res *hlib.Result, i int, big int) []string {
 		}
 		if r.Chance(1, 4) {
 			lines = append(lines, fmt.Sprintf("raceabort %d %d", r.Intn(40), r.Intn(40)))
+		}
+		if r.Chance(1, 4) {
+			lines = append(lines, fmt.Sprintf("raceclaim %d", r.Intn(40)))
 		}
 		if r.Chance(1, 2) {
 			lines = append(lines, fmt.Sprintf("badproof %d %s", r.Intn(40), []string{"value", "drop", "hash", "garbage"}[r.Intn(4)]))
